@@ -2,6 +2,7 @@ import RustCcModel.Proofs.Policy
 import RustCcModel.Generated.Consts
 import RustCcModel.Model.Machine
 import RustCcModel.Proofs.ExecsStep
+import RustCcModel.Proofs.Rounding
 /-! # C15 — automatic collection follows the documented trigger and threshold policy
 
 `D` below is `DEFAULT_BYTES_THRESHOLD` as regenerated from config.rs; the statements hold for every
@@ -45,6 +46,38 @@ theorem threshold_after_adjust_f64 (D alloc bits thr : Nat) (hD : 0 < D) (hp : I
       (productUnits thr bits ≠ 0 → thr ≤ alloc ∨ (leProduct alloc r bits = false ∨ r / 2 ≤ alloc ∨ r = D)) := by
   obtain ⟨h1, h2⟩ := fuelFor_suffices D alloc thr hD hp
   exact adjustF_spec D (fuelFor alloc thr) alloc bits thr hD hp h1 h2
+
+/-- **The `f64` comparison decides the exact one** (`Proofs/Rounding.lean`: round-to-nearest-even is monotone and exact on
+values with at most 53 significant bits): for byte counts below `2^53`, where `as f64` is exact, "the code found
+`allocated as f64 <= threshold as f64 * percent` false" means `threshold × percent < allocated` for the exact values
+(`percent = m · 2^e / 2^1074`, `(m, e) = decode bits`). -/
+theorem computed_comparison_is_exact (alloc thr bits : Nat) (ha : alloc < 2 ^ 53) (ht : thr < 2 ^ 53)
+    (h : leProduct alloc thr bits = false) :
+    thr * (decode bits).1 * 2 ^ (decode bits).2 < alloc * 2 ^ 1074 :=
+  leProduct_false_exact alloc thr bits ha ht h
+
+/-- Threshold after every adjustment as the code computes it, with the "not needlessly high" clause about the **exact**
+values: allocated bytes exceed `threshold × adjustment_percent`, or halving would not keep it above allocated, or it is at
+its initial value — for byte counts below `2^53`. -/
+theorem threshold_after_adjust_f64_exact (D alloc bits thr : Nat) (hD : 0 < D) (hp : IsDPow D thr)
+    (ha : alloc < 2 ^ 53) (hr : adjustF D (fuelFor alloc thr) alloc bits thr < 2 ^ 53) :
+    let r := adjustF D (fuelFor alloc thr) alloc bits thr
+    IsDPow D r ∧ D ≤ r ∧ alloc < r ∧
+      (productUnits thr bits ≠ 0 → thr ≤ alloc ∨
+        (r * (decode bits).1 * 2 ^ (decode bits).2 < alloc * 2 ^ 1074 ∨ r / 2 ≤ alloc ∨ r = D)) := by
+  have h := threshold_after_adjust_f64 D alloc bits thr hD hp
+  refine ⟨h.1, h.2.1, h.2.2.1, ?_⟩
+  intro hne
+  rcases h.2.2.2 hne with h1 | h1 | h1 | h1
+  · exact Or.inl h1
+  · exact Or.inr (Or.inl (leProduct_false_exact alloc _ bits ha hr h1))
+  · exact Or.inr (Or.inr (Or.inl h1))
+  · exact Or.inr (Or.inr (Or.inr h1))
+
+/-- Rounding facts used above, for every input. -/
+theorem rounding_monotone (a b : Nat) (h : a ≤ b) : roundUnits a ≤ roundUnits b := roundUnits_mono a b h
+theorem rounding_exact_on_representable (k j : Nat) (hk : k < 2 ^ 53) : roundUnits (k * 2 ^ j) = k * 2 ^ j :=
+  roundUnits_exact k j hk
 
 /-- The invariant `IsDPow D thr` holds initially and is kept by every adjustment: so it holds after
 every collection of every history. -/
